@@ -53,6 +53,10 @@ def run(prog, tier):
     check_copy_on_insert(R, prog)
     from ._shared import check_no_shared_state
     check_no_shared_state(R, prog, P, ['cnfgen.families', 'cnfgen.transformations', 'cnfgen.graphs'], 150)
+    from ._families import borrow as _borrow
+    from . import c17 as _c17
+    _h = [h for h in _c17.collect_helpers(prog) if h[2].name == "transform_cnf"]
+    _borrow(R, P, "CLI", prog, _c17.check_helper_schema, _h, floor=10)
     return R
 
 
